@@ -77,7 +77,11 @@ OPSIG = {
     "SmallAdj": ("T", 0), "Generator": ("I", 0), "Vee": ("M", 0), "Bracket": ("TT", 0), "Inner": ("TT", 0),
     "InnerWeights": ("", 0), "WeightedNorm": ("T", 0), "SqWeightedNorm": ("T", 0),
     "TPlus": ("TT", 2), "TMinus": ("TT", 2), "TIsApprox": ("TUE", 0),
+    "AliasGT": ("GT", 2), "AliasGG": ("GH", 2), "AliasG": ("G", 1), "AliasT": ("T", 1), "AliasGV": ("GV", 2), "AliasId": ("GT", 0),
 }
+# alias ops: the spellings (iarg values) and those that take no Jacobian arguments (mask forced to 0)
+ALIAS = {"AliasGT": (list(range(12)), {2, 3, 7}), "AliasGG": (list(range(9)), {1, 5, 6}), "AliasG": (list(range(4)), set()),
+         "AliasT": (list(range(3)), set()), "AliasGV": ([0], set()), "AliasId": (list(range(4)), set())}
 NO_ROTATION = lambda gn: gn.startswith("R") or gn.startswith("B")
 def op_applicable(op, gn):
     if op == "Rotation": return not NO_ROTATION(gn)
@@ -114,6 +118,10 @@ def gen_case(g, gn, op, mask=None, flt=False, force_valid=False):
             args.append([g.small(5) for _ in range(gd.alg * gd.alg)])
     if mask is None:
         mask = "".join(g.r.choice("01") for _ in range(nm)) if nm else "-"
+    if op in ALIAS:
+        forms, nojac = ALIAS[op]
+        iarg = g.r.choice(forms)
+        if iarg in nojac: mask = "0" * nm
     return dict(group=gn, op=op, mask=mask, iarg=iarg, flt=int(flt), args=args)
 
 def case_line(cid, c):
